@@ -411,7 +411,14 @@ func init() {
 						ok := false
 						core.InspectBody(f, func(n ast.Node) bool {
 							if ifs, isIf := n.(*ast.IfStmt); isIf {
-								if b, isB := ast.Unparen(ifs.Cond).(*ast.BinaryExpr); isB && b.Op == token.LOR {
+								cond := ast.Unparen(ifs.Cond)
+								// the predicate may be held in a local defined once
+								if id, isId := cond.(*ast.Ident); isId {
+									if defs := core.LiveDefs(c.DefsOf(c.Info.ObjectOf(id))); len(defs) == 1 && defs[0].N == 1 && defs[0].Rhs != nil {
+										cond = ast.Unparen(defs[0].Rhs)
+									}
+								}
+								if b, isB := cond.(*ast.BinaryExpr); isB && b.Op == token.LOR {
 									if (core.IsObj(bcp+"BlockStore.saveSequence")(c, b.X) && core.IsObj(bcp+"BlockStore.isParaChain")(c, b.Y)) ||
 										(core.IsObj(bcp+"BlockStore.saveSequence")(c, b.Y) && core.IsObj(bcp+"BlockStore.isParaChain")(c, b.X)) {
 										ok = true
